@@ -337,3 +337,26 @@ silent('C02', 'buffer-cancel-index-rewritten',
 silent('C02', 'prs-cancel-locals-renamed',
        lambda p: M.replace_node(p, S_PRS, 'ReservablePriorityReqStore.reserve_get_cancel', M.if_testing('get_event_to_cancel in self.reserve_get_queue'),
                                 lambda s: s.replace('item_to_shift', 'moved').replace('delta_position', 'n_reserved')))
+
+# ============================================================================================ C06
+fire('C06', 'buffer-cancel-old-index (defect D1 re-introduced)', 'C06.R2', 'BufferStore.reserve_get_cancel::reinsert[FIFO]',
+     lambda p: M.replace_node(p, S_BUF, 'BufferStore.reserve_get_cancel', M.assign_to('insert_idx'), OLD_IDX, which=0))
+fire('C06', 'slotted-cancel-old-index (defect D1 re-introduced)', 'C06.R2', 'BeltStore.reserve_get_cancel::reinsert[FIFO]',
+     lambda p: M.replace_node(p, S_SLOT, 'BeltStore.reserve_get_cancel', M.assign_to('insert_idx'), OLD_IDX, which=0))
+fire('C06', 'rs-cancel-to-end', 'C06.R2', 'ReservableReqStore.reserve_get_cancel',
+     lambda p: M.replace_node(p, S_RS, 'ReservableReqStore.reserve_get_cancel', M.stmt_calling('self.items.insert'), 'self.items.append(item_to_shift)'))
+fire('C06', 'fleet-binder-takes-last', 'C06.R1', 'FleetStore._do_reserve_get',
+     lambda p: M.replace_node(p, S_FLT, 'FleetStore._do_reserve_get', M.assign_to('item'), 'item = self.ready_items[-1 - j]'))
+fire('C06', 'belt-arrival-at-front', 'C06.R1', 'BeltStore.move_to_ready_items',
+     lambda p: M.replace_node(p, S_BELT, 'BeltStore.move_to_ready_items', M.stmt_calling('self.ready_items.append'), 'self.ready_items.insert(0, item_to_put[0])'))
+fire('C06', 'machine-picks-last-triggered', 'C06.R4', 'Machine.behaviour',
+     lambda p: M.replace_node(p, N_MAC, 'Machine.behaviour', M.assign_to('self.chosen_event'),
+                              'self.chosen_event = next((event for event in reversed(self.in_edge_events) if event.triggered), None)'))
+fire('C06', 'sink-picks-any', 'C06.R4', 'Sink.behaviour',
+     lambda p: M.replace_node(p, N_SNK, 'Sink.behaviour', M.assign_to('self.chosen_event'),
+                              'self.chosen_event = next((event for event in self.in_edge_events if event is not None), None)'))
+fire('C06', 'splitter-behaviour-no-cancel', 'C06.R4', 'Splitter.behaviour',
+     lambda p: M.replace_node(p, N_SPL, 'Splitter.behaviour', M.if_testing('event is not self.chosen_event'), 'pass'))
+silent('C06', 'machine-lookup-var-renamed',
+       lambda p: M.replace_node(p, N_MAC, 'Machine.behaviour', M.assign_to('self.chosen_event'),
+                                'self.chosen_event = next((ev for ev in self.in_edge_events if ev.triggered), None)'))
